@@ -305,6 +305,8 @@ def addExpr (G : GLang) (c : GCfg) (root : Node) (origin : Option Node) :
         let g := match currentInternal with
           | some i => gAddFrom c g xnode i
           | none => g
+        -- `x` may already be an input of `f` (the same source passed, or returned by a passed function, a second time)
+        let repeated := (objectsOf g.fd.frm fnode).contains xnode
         let g := gAddFrom c g fnode xnode
         -- inner internal operations of `x` are fed by the current internal operation
         let g := match currentInternal with
@@ -316,7 +318,7 @@ def addExpr (G : GLang) (c : GCfg) (root : Node) (origin : Option Node) :
         -- every input of `f` is an input of the current internal operation
         let g := match currentInternal with
           | some i =>
-            let g := (objectsOf g.fd.frm fnode).eraseDups.foldl (fun g fin => if xnode != fin then gAddFrom c g i fin else g) g
+            let g := (objectsOf g.fd.frm fnode).eraseDups.foldl (fun g fin => if xnode != fin || repeated then gAddFrom c g i fin else g) g
             match origin with
             | some o => if c.withWorkflowOrigin then g.add (.b i, .tf "origin", o) else g
             | none => g
